@@ -401,15 +401,29 @@ Theorem C03_translated_reset_memory ctl m : XfrmGen.reset_on_memory ctl m = m.
 Proof. exact (GenEqXfrm.gen_reset_on_memory_eq ctl m). Qed.
 Print Assumptions C03_translated_reset_memory.
 
-(* DomainRenamer: statement domains, memory-port domains; the value / statement transformers are the identity on
-   the model's expressions (which have no ClockSignal / ResetSignal nodes) *)
-Theorem C03_translated_domain_renamer rho f : XfrmGen.rename_on_fragment rho f = domain_renamer rho f.
-Proof. exact (GenEqXfrm.gen_rename_on_fragment_eq rho f). Qed.
+(* DomainRenamer: statement domains, memory-port domains, and the late-bound signals ClockSignal / ResetSignal (the
+   pseudo signals of cs_decode): the regenerated transformer is the model's domain_renamer_cs on every tree whose
+   late-bound signals carry the shape unsigned(1), and the plain domain_renamer when there is none (all indices
+   below base) *)
+Theorem C03_translated_domain_renamer_cs base rho f : GenEqXfrm.all_sigs_frag (GenEqXfrm.cs_shape_ok base) f = true ->
+  XfrmGen.rename_on_fragment base rho f = domain_renamer_cs base rho f.
+Proof. exact (GenEqXfrm.gen_rename_cs base rho f). Qed.
+Print Assumptions C03_translated_domain_renamer_cs.
+Theorem C03_translated_domain_renamer base rho f : GenEqXfrm.all_sigs_frag (fun i _ => Nat.ltb i base) f = true ->
+  XfrmGen.rename_on_fragment base rho f = domain_renamer rho f.
+Proof. exact (GenEqXfrm.gen_rename_plain base rho f). Qed.
 Print Assumptions C03_translated_domain_renamer.
-Theorem C03_translated_renamer_values rho e s :
-  XfrmGen.rename_on_value rho e = e /\ XfrmGen.rename_on_statement rho s = s.
-Proof. split; [exact (GenEqXfrm.gen_rename_on_value_eq rho e)|exact (GenEqXfrm.gen_rename_on_statement_eq rho s)]. Qed.
+Theorem C03_translated_renamer_values base rho e :
+  (GenEqXfrm.all_sigs (GenEqXfrm.cs_shape_ok base) e = true -> XfrmGen.rename_on_value base rho e = map_sig (ren_sig base rho) e) /\
+  (GenEqXfrm.all_sigs (fun i _ => Nat.ltb i base) e = true -> XfrmGen.rename_on_value base rho e = e).
+Proof. split; [exact (GenEqXfrm.gen_rename_value_cs base rho e)|exact (GenEqXfrm.gen_rename_value_plain base rho e)]. Qed.
 Print Assumptions C03_translated_renamer_values.
+Example C03_translated_renamer_hyps :
+  let e := EOp2 OAnd (ESig (cs_index 100 1 0) (Sh 1 false)) (EOp2 OOr (ESig (cs_index 100 1 2) (Sh 1 false)) (ESig 4 (Sh 1 false))) in
+  GenEqXfrm.all_sigs (GenEqXfrm.cs_shape_ok 100) e = true /\
+  XfrmGen.rename_on_value 100 [(1%nat, 2%nat)] e =
+    EOp2 OAnd (ESig (cs_index 100 2 0) (Sh 1 false)) (EOp2 OOr (ESig (cs_index 100 2 2) (Sh 1 false)) (ESig 4 (Sh 1 false))).
+Proof. vm_compute. split; reflexivity. Qed.
 
 (* __init__: a control dict is accepted iff it names no control for "comb" (so the `domain == "comb"` test of
    on_fragment is implied by the lookup); a domain map iff neither side of any pair is "comb" *)
@@ -438,14 +452,16 @@ Example C03_translated_hyps :
   tab_ok ex_tab /\ GenEqXfrm.ctl_wf ex_ctl /\ GenEqXfrm.frag_ok (fun e => GenEqXfrm.stmts_ok (snd e) = true) ex_frag /\
   XfrmGen.reset_on_fragment ex_tab ex_ctl ex_frag = reset_inserter ex_tab ex_ctl ex_frag /\
   XfrmGen.enable_on_fragment ex_ctl ex_frag = enable_inserter ex_ctl ex_frag /\
+  GenEqXfrm.all_sigs_frag (fun i _ => Nat.ltb i 100) ex_frag = true /\
   lookup 1%nat (match reset_inserter ex_tab ex_ctl ex_frag with Frag st _ _ => st end) =
     Some [SAssign (ESlice (ESig 2 s4) 1 3) (EConst 2 (Sh 2 false)); inc 3;
           ctl_switch (ESig 4 (Sh 1 false)) [SAssign (ESlice (ESig 2 s4) 1 3) (ESlice (EConst 3 s4) 1 3)]].
 Proof.
-  destruct C03_reset_inserter_hyps as [Ht _]. split; [exact Ht|]. split; [|split; [|split; [|split]]].
+  destruct C03_reset_inserter_hyps as [Ht _]. split; [exact Ht|]. split; [|split; [|split; [|split; [|split]]]].
   - intros d c. unfold lookup, ex_ctl. cbn [find fst snd]. destruct (Nat.eqb 1 d); intros H; inversion H. vm_compute. discriminate.
   - cbn. repeat split; try (repeat constructor; cbn; intuition congruence); try (intros e [<-|[<-|[]]]; cbn; congruence);
       try (intros e [<-|[]]; cbn; congruence).
+  - vm_compute. reflexivity.
   - vm_compute. reflexivity.
   - vm_compute. reflexivity.
   - vm_compute. reflexivity.
